@@ -407,8 +407,12 @@ class Run:
             "wall_s": round(time.time() - self.t0, 2),
             "violations": nviol,
         }
-        os.makedirs(os.path.join(ROOT, "evidence"), exist_ok=True)
-        p = os.path.join(ROOT, "evidence", self.pid + ".json")
+        evdir = os.path.join(ROOT, "evidence")
+        if os.path.realpath(REPO) != "/repo":
+            # mutation / seed testing against another tree never touches the registered evidence
+            evdir = os.path.join(self.work, "evidence-not-registered")
+        os.makedirs(evdir, exist_ok=True)
+        p = os.path.join(evdir, self.pid + ".json")
         tmp = p + ".tmp%d" % os.getpid()
         json.dump(ev, open(tmp, "w"), indent=1)
         os.replace(tmp, p)
